@@ -242,6 +242,18 @@ Theorem C02_concrete_document_nodes :
           Some (op_to_serial E0 E0 e0 (n_op nd) (N.of_nat (rank h (match n_parent nd with Some p => p | None => i end)))).
 Proof. exact (fun md md_nil md_is_nil => concrete_doc_nodes E0 E0 e0 md md_nil md_is_nil). Qed.
 
+(* the C03 theorems with their hypothesis discharged (ndp_spec holds for every concrete operation, at every depth):
+   serialization of a guarded HUGR over C05's operations is total, the document is index-sane, and every edge is the
+   link renumbered and addressed by the reader's contract of the ENCODED operations.  (Stated here because
+   props/C03.v is being edited by another agent.) *)
+Theorem C02_concrete_ops_wire_format :
+  forall (H SH : Type) (h_enc : H -> SH) (md : Type) (md_nil : md) (md_is_nil : md -> bool) (h : hugr (op H) md),
+    guard_b (c_vports H SH h_enc) (c_sports H SH h_enc) (c_has_order H SH h_enc) h = true ->
+    exists s, to_serial (c_enc H SH h_enc) (c_ndp H) md_is_nil h = Some s /\
+      rank h (h_root h) = 0 /\ IndexSane s /\
+      s_edges s = map (expected_edge (c_vports H SH h_enc) (c_sports H SH h_enc) h) (h_links h).
+Proof. exact concrete_wire_format. Qed.
+
 (* C02 o C05 at ANY nesting depth n of function-valued constants (HT md n = the HUGRs embedded in the constants:
    Empty_set at 0, HUGRs over operations of depth n-1 otherwise; okT = this theorem's own premises on the embedded
    HUGRs, as a boolean, plus a root with an inner signature) *)
@@ -451,6 +463,7 @@ Proof. exact builder_history_example. Qed.
 Print Assumptions C02_concrete_ops_hypotheses_discharged.
 Print Assumptions C02_roundtrip_concrete_ops.
 Print Assumptions C02_concrete_document_nodes.
+Print Assumptions C02_concrete_ops_wire_format.
 Print Assumptions C02_roundtrip_concrete_ops_any_depth.
 Print Assumptions C02_roundtrip_concrete_ops_closed.
 Print Assumptions C02_concrete_ops_example.
